@@ -1,7 +1,7 @@
 """C13 - capture results and switching-activity counts faithfully summarise waveforms.
 
 W1: capture function on every waveform x capture times; kernel rise/fall counts and overflow soundness on
-the C03 kernel space.  W2: circuits x stimuli x delay plans x capacities x capture times (incl. 0.0, -1 and a second capture on the same object) x accumulation tables.
+the C03 kernel space.  W2: circuits x stimuli x delay plans x capacities x capture times (incl. 0.0, -1 and a second capture on the same object, and a capture after a propagation of the first half of the simulations only) x accumulation tables.
 """
 import itertools
 import traceback
